@@ -2,6 +2,7 @@ import LdkModel.Driver.Util
 import LdkModel.Model.Channel
 import LdkModel.Model.ChanPersist
 import LdkModel.Model.ChanReest
+import LdkModel.Generated.RecvAdmit
 import LdkModel.Proofs.Channel.Guarded
 import LdkModel.Model.MonGate
 import LdkModel.Model.TxBuilder
@@ -102,7 +103,15 @@ def chan : Drv where
        | none => (some s, "nocfg")
        | some c => match n.availableBalances c with
          | none => (some s, "err")
-         | some a => (some s, s!"{a.next_outbound_htlc_limit_msat} {a.next_outbound_htlc_minimum_msat}"))
+         | some a =>
+           -- the stand-alone sender caps of Generated/RecvAdmit.lean (the ones `sender_limit_admitted_by_receiver_partial` is about)
+           -- must bound the limit the whole translated get_available_balances reports on this state
+           let prm : RecvAdmit.Params := ⟨0, 0, c.cons.holder_selected_channel_reserve_satoshis, c.cons.counterparty_max_accepted_htlcs, c.cons.counterparty_max_htlc_value_in_flight_msat, c.cons.counterparty_selected_channel_reserve_satoshis⟩
+           let outs := n.statsHtlcs.filter (fun h => h.outbound)
+           let lim := a.next_outbound_htlc_limit_msat
+           if lim > RecvAdmit.senderInFlightCap prm ((outs.map (fun h => h.amount_msat)).sum) || (lim > 0 && !RecvAdmit.senderCountOk prm outs.length)
+              || lim > RecvAdmit.senderReserveCap prm n.statsValueToSelf then (some s, "LIMIT-EXCEEDS-GENERATED-SENDER-CAP")
+           else (some s, s!"{a.next_outbound_htlc_limit_msat} {a.next_outbound_htlc_minimum_msat}"))
     | ["release", x], some s => ret
       (match stepG s (.release (x == "a")) with | none => (some s, "disabled") | some s' => (some s', "ok"))
     | ["raa", x], some s => ret
